@@ -16,7 +16,7 @@ from .common import Vals, Stubs, I, cls_name
 
 MANIFEST_ENTRY = {
     "category": "proof",
-    "text": "the __eq__ of every value class is executed symbolically for all 19x19 ordered kind pairs and proved equal to the spec equality veq (numeric across int/decimal, structural on collections, identity on functions/streams/control values, never across kinds); veq(x,y) implies equal hashes; veq is an equivalence (z3 lemmas); sets, maps, `in`, equals/not_equals/remove/put pass the value objects themselves to the host containers",
+    "text": "the __eq__ of every value class is executed symbolically for all 19x19 ordered kind pairs and proved equal to the spec equality veq (numeric across int/decimal, structural on collections, identity on functions/streams/control values, never across kinds); veq(x,y) implies equal hashes; veq is an equivalence (z3 lemmas); sets, maps, `in`, equals/not_equals/remove/put pass the value objects themselves to the host containers; through the language: for all pairs and triples of 33 expressions (neighbouring decimals, ints beyond 2^53, every kind) the operators ==, !=, equals, in, set and map construction, lookup, removal and container == agree and form an equivalence (bounded)",
     "note": "host set/dict/list implement the abstract container given lawful __eq__/__hash__ (that lawfulness is what is proved); NaN excluded; hash of collections: symbolic-bounded (<= 3 elements, all orders)",
     "technique": "deductive verification: pyvc VCs from the real AST + z3 (per class-pair path enumeration)",
 }
